@@ -175,6 +175,108 @@ func genUserConstraintLevel(rng *rand.Rand, c *Case, level int) *userConstraint 
 	return u
 }
 
+// ucForbid: a second user constraint of the histuc stream, vehicle level. It rejects exactly one route of one
+// vehicle — the one the harness names just before an un-plan operation (the route that operation would
+// produce) — and nothing otherwise, so that the rollback branches of the un-plan operations (stops-unit,
+// member of a units-unit, vehicle level) run on arbitrary instances. A state predicate: the attempted state
+// violates it, the restored state does not.
+type forbidState struct {
+	sig  string
+	hits int
+}
+type ucForbid struct {
+	st       *forbidState
+	temporal bool
+}
+
+func routeSig(v nextroute.SolutionVehicle) string {
+	var sb strings.Builder
+	sb.WriteString(strconv.Itoa(v.Index()))
+	sb.WriteByte(':')
+	for _, st := range v.SolutionStops() {
+		if !st.IsFirst() && !st.IsLast() {
+			sb.WriteString(strconv.Itoa(st.ModelStop().Index()))
+			sb.WriteByte(',')
+		}
+	}
+	return sb.String()
+}
+
+// routeSigWithout: the signature of v's route after removing the stops for which drop() holds.
+func routeSigWithout(v nextroute.SolutionVehicle, drop func(nextroute.SolutionStop) bool) string {
+	var sb strings.Builder
+	sb.WriteString(strconv.Itoa(v.Index()))
+	sb.WriteByte(':')
+	for _, st := range v.SolutionStops() {
+		if !st.IsFirst() && !st.IsLast() && !drop(st) {
+			sb.WriteString(strconv.Itoa(st.ModelStop().Index()))
+			sb.WriteByte(',')
+		}
+	}
+	return sb.String()
+}
+
+func (u ucForbid) String() string { return "user_forbid_route" }
+func (u ucForbid) EstimateIsViolated(nextroute.SolutionMoveStops) (bool, nextroute.StopPositionsHint) {
+	return false, nextroute.NoPositionsHint()
+}
+func (u ucForbid) IsTemporal() bool { return u.temporal }
+func (u ucForbid) DoesVehicleHaveViolations(v nextroute.SolutionVehicle) bool {
+	if u.st.sig == "" || routeSig(v) != u.st.sig {
+		return false
+	}
+	u.st.hits++
+	return true
+}
+
+// solution-level data kept by ucForbid (constraint) and ucObjective (objective term of value 0): refreshed IN
+// PLACE, as a user's updater may do — a copy that shares the object with its original then sees the other
+// side's operations (C11)
+type countData struct{ planned int }
+
+func (d *countData) Copy() nextroute.Copier { c := *d; return &c }
+
+func plannedCount(s nextroute.Solution) int {
+	n := 0
+	for _, v := range s.Vehicles() {
+		n += v.NumberOfStops()
+	}
+	return n
+}
+
+func (u ucForbid) UpdateConstraintSolutionData(s nextroute.Solution) (nextroute.Copier, error) {
+	if d, ok := s.ConstraintData(u).(*countData); ok && d != nil {
+		d.planned = plannedCount(s)
+		return d, nil
+	}
+	return &countData{planned: plannedCount(s)}, nil
+}
+
+type ucObjective struct{ id *int }
+
+func (u ucObjective) String() string                                      { return "user_objective_zero" }
+func (u ucObjective) EstimateDeltaValue(nextroute.SolutionMoveStops) float64 { return 0 }
+func (u ucObjective) Value(nextroute.Solution) float64                     { return 0 }
+func (u ucObjective) UpdateObjectiveSolutionData(s nextroute.Solution) (nextroute.Copier, error) {
+	if d, ok := s.ObjectiveData(u).(*countData); ok && d != nil {
+		d.planned = plannedCount(s)
+		return d, nil
+	}
+	return &countData{planned: plannedCount(s)}, nil
+}
+
+// solutionDataStale: the in-place refreshed data of a solution disagrees with the solution itself.
+func solutionDataStale(s nextroute.Solution, fc ucForbid, fo ucObjective) string {
+	n := plannedCount(s)
+	if d, ok := s.ConstraintData(fc).(*countData); ok && d != nil && d.planned != n {
+		return fmt.Sprintf("constraint solution data says %d planned stops, the solution has %d", d.planned, n)
+	}
+	if d, ok := s.ObjectiveData(fo).(*countData); ok && d != nil && d.planned != n {
+		return fmt.Sprintf("objective solution data says %d planned stops, the solution has %d", d.planned, n)
+	}
+	return ""
+}
+
 type ucMulti struct{ *userConstraint }
 
 func (u ucMulti) count(b bool) bool {
@@ -492,7 +594,7 @@ func runHist(o *Out, thorough bool, withUC bool) {
 		}
 		if waitBias {
 			p = Profile{MaxStops: 4 + rng.Intn(5), MaxVehicles: 1 + rng.Intn(2), Windows: true, Waits: true, NonMetric: true,
-				TD: true, Limits: true, Tight: ci%2 == 0, ForceWindows: true}
+				TD: true, Limits: true, Tight: ci%2 == 0, ForceWindows: true, Precedence: ci%3 != 0, ForcePrec: ci%3 == 1, Trap: ci%3 == 2}
 		}
 		c := genCase(rng, p)
 		hc := &histCase{Case: c, Seed: rng.Int63()}
@@ -538,6 +640,19 @@ func runHistCase(o *Out, ci int, hc *histCase, nops int, distinct map[string]boo
 			return
 		}
 		o.Count("uc:" + uc.Level + ":" + uc.Kind)
+	}
+	forbid := &forbidState{}
+	fc := ucForbid{st: forbid, temporal: hc.Seed%2 == 0}
+	fo := ucObjective{id: new(int)}
+	if uc != nil {
+		if e := bt.model.AddConstraint(fc); e != nil {
+			o.Count("uc-add-error")
+			return
+		}
+		if _, e := bt.model.Objective().NewTerm(1.0, fo); e != nil {
+			o.Count("uc-add-error")
+			return
+		}
 	}
 	rec := &recorder{}
 	histRec = rec
@@ -734,11 +849,40 @@ func runHistCase(o *Out, ci int, hc *histCase, nops int, distinct map[string]boo
 	pendingRole := ""
 	removedSince := false
 	fillLeft := 0
+	// histw: when the instance has a neutral detour (a, x, b), a and b are first planned next to each other at the end
+	// of the first vehicle, so that placements of x's unit between them (an unchanged planned stop between two inserted
+	// stops) are among those the estimate sweep enumerates
+	type forcedOp struct {
+		plan bool // false: un-plan the stop's unit
+		stop int  // case stop index
+		back int  // plan: gap counted from the vehicle's end (1 = in front of the end stop, 2 = in front of the last planned stop)
+	}
+	var forced []forcedOp
+	if waitBias && len(c.Neutral) > 0 {
+		t := c.Neutral[0]
+		for _, cand := range c.Neutral {
+			if cand[1] < len(c.Stops) && len(c.Stops[cand[1]].Precedes) > 0 {
+				t = cand
+			}
+		}
+		forced = []forcedOp{{true, t[0], 1}, {true, t[2], 1}}
+	}
+	// removal trap (A, B): B is planned at the tail of the first vehicle, A in front of it, then B is un-planned — the
+	// direct leg from A to the vehicle's end is long, so the removal makes the vehicle finish after its end time
+	if len(c.Trap) == 2 {
+		forced = []forcedOp{{true, c.Trap[1], 1}, {true, c.Trap[0], 2}, {false, c.Trap[1], 0}}
+	}
 	for step := 0; step < nops; step++ {
 		var opDesc string
 		collLine := ""
 		before := snapOf(b, sol)
 		kind := rng.Intn(100)
+		if len(forced) > 0 && pending == nil {
+			kind = 45
+			if !forced[0].plan {
+				kind = 60
+			}
+		}
 		if pending != nil {
 			// fill the vehicles with other units first, then execute the kept move
 			if fillLeft > 0 {
@@ -887,19 +1031,86 @@ func runHistCase(o *Out, ci int, hc *histCase, nops int, distinct map[string]boo
 				continue
 			}
 			su := cands[rng.Intn(len(cands))]
-			role := unitRole(su)
-			opDesc = "newmove(" + role + ")"
 			vehicles := sol.Vehicles()
 			v := vehicles[rng.Intn(len(vehicles))]
+			var forcedUnit nextroute.SolutionPlanStopsUnit
+			back := 1
+			if len(forced) > 0 {
+				si := forced[0].stop
+				back = forced[0].back
+				forced = forced[1:]
+				if si < len(bt.model.Stops()) {
+					if st := sol.SolutionStop(bt.model.Stops()[si]); !st.IsZero() && !st.IsPlanned() {
+						fu := st.PlanStopsUnit()
+						_, member := fu.ModelPlanUnit().PlanUnitsUnit()
+						if len(fu.SolutionStops()) == 1 && !member && !fu.IsFixed() {
+							forcedUnit = fu
+						}
+					}
+				}
+				if forcedUnit == nil {
+					forced = nil
+					continue
+				}
+				su, v = forcedUnit, vehicles[0]
+			}
+			role := unitRole(su)
+			opDesc = "newmove(" + role + ")"
 			rec.reset()
 			rec.keepEsts = true
-			mv := randomPlacement(rng, su, v)
+			var mv nextroute.SolutionMoveStops
+			if forcedUnit != nil {
+				target := v.SolutionStops()
+				if len(target)-back < 1 {
+					forced = nil
+					continue
+				}
+				mv, _ = moveAt(su, su.SolutionStops(), target, []int{len(target) - back})
+				o.Count("forced-placement")
+			} else {
+				mv = randomPlacement(rng, su, v)
+			}
 			rec.keepEsts = false
 			if mv == nil {
 				continue
 			}
 			if !tainted {
 				estCorrespondence(o, rec, mv, v)
+				// estimate sweep: for a multi-stop unit, the estimates of (a sample of) ALL its placements on this
+				// vehicle are compared with the models, not only the one that is executed — an early exit that is
+				// wrong only for a particular shape (an unchanged planned stop between two inserted stops, …) is
+				// reached by enumeration rather than by luck
+				if n := len(su.SolutionStops()); n >= 2 && n <= 3 && v.NumberOfStops() <= 6 {
+					srng := rand.New(rand.NewSource(hc.Seed + int64(step)*7919))
+					target := v.SolutionStops()
+					cs := combos(n, len(target)-1)
+					orders := allowedOrders(su)
+					type placement struct{ o, g int }
+					var all []placement
+					for oi := range orders {
+						for gi := range cs {
+							all = append(all, placement{oi, gi})
+						}
+					}
+					srng.Shuffle(len(all), func(i, j int) { all[i], all[j] = all[j], all[i] })
+					if len(all) > 150 {
+						all = all[:150]
+					}
+					for _, pl := range all {
+						gaps, order := cs[pl.g], orders[pl.o]
+						if splitsDirectPair(target, gaps) || separatesOwnDirectPair(order, gaps) {
+							continue
+						}
+						rec.keepEsts = true
+						m2, err2 := moveAt(su, order, target, gaps)
+						rec.keepEsts = false
+						if err2 != nil || m2 == nil {
+							continue
+						}
+						estCorrespondence(o, rec, m2, v)
+						o.Count("est-sweep-placements")
+					}
+				}
 			}
 			exe := mv.IsExecutable()
 			var ok bool
@@ -935,7 +1146,16 @@ func runHistCase(o *Out, ci int, hc *histCase, nops int, distinct map[string]boo
 				continue
 			}
 			var u nextroute.SolutionPlanUnit = pl[rng.Intn(len(pl))]
-			if _, isUU := u.(nextroute.SolutionPlanUnitsUnit); isUU {
+			if len(forced) > 0 && !forced[0].plan {
+				si := forced[0].stop
+				forced = forced[1:]
+				st := sol.SolutionStop(bt.model.Stops()[si])
+				if st.IsZero() || !st.IsPlanned() {
+					continue
+				}
+				u = st.PlanStopsUnit()
+				o.Count("forced-unplan")
+			} else if _, isUU := u.(nextroute.SolutionPlanUnitsUnit); isUU {
 				touchedNested = true
 				if rng.Intn(3) == 0 {
 					ms := memberStopsUnits(u)
@@ -955,10 +1175,30 @@ func runHistCase(o *Out, ci int, hc *histCase, nops int, distinct map[string]boo
 			var ok bool
 			var e error
 			rec.reset()
+			// does the removal delay the end of a vehicle (non-metric matrix, duration groups)? — the case in which
+			// un-planning needs its temporal re-validation
+			endBefore := map[int]float64{}
+			tailUnit := false
+			for _, vv := range sol.Vehicles() {
+				endBefore[vv.Index()] = vv.Last().ArrivalValue()
+			}
+			if su, isStops := u.(nextroute.SolutionPlanStopsUnit); isStops && len(su.SolutionStops()) > 0 {
+				sts := su.SolutionStops()
+				tailUnit = sts[len(sts)-1].Next().IsLast()
+			}
 			lku := linksBeforeUnplan(sol, u)
+			if su, isStops := u.(nextroute.SolutionPlanStopsUnit); isStops && uc != nil && rng.Intn(3) == 0 && len(su.SolutionStops()) > 0 {
+				mine := map[int]bool{}
+				for _, st := range su.SolutionStops() {
+					mine[st.ModelStop().Index()] = true
+				}
+				forbid.sig = routeSigWithout(su.SolutionStops()[0].Vehicle(), func(st nextroute.SolutionStop) bool { return mine[st.ModelStop().Index()] })
+				o.Count("forbid:unplan-stops-unit")
+			}
 			if doPanic(opDesc, func() { ok, e = u.UnPlan() }) {
 				return
 			}
+			forbid.sig = ""
 			if e == nil {
 				lku.afterUnplan(o, sol, ok)
 			}
@@ -972,6 +1212,18 @@ func runHistCase(o *Out, ci int, hc *histCase, nops int, distinct map[string]boo
 				return
 			}
 			o.Count("unplan:" + role + fmt.Sprintf(":ok=%v", ok))
+			if ok {
+				for _, vv := range sol.Vehicles() {
+					if vv.Last().ArrivalValue() > endBefore[vv.Index()] {
+						o.Count("unplan:accepted-and-vehicle-ends-later")
+						if tailUnit {
+							o.Count("unplan:accepted-tail-unit-and-vehicle-ends-later")
+						}
+					}
+				}
+			} else if tailUnit {
+				o.Count("unplan:rejected-tail-unit")
+			}
 			removedSince = true
 			after := snapOf(b, sol)
 			if !ok {
@@ -1007,9 +1259,14 @@ func runHistCase(o *Out, ci int, hc *histCase, nops int, distinct map[string]boo
 					}
 				}
 			}
+			if uc != nil && len(vus) > 0 && rng.Intn(2) == 0 {
+				forbid.sig = routeSigWithout(v, func(st nextroute.SolutionStop) bool { return !st.IsFixed() })
+				o.Count("forbid:vehicle-unplan")
+			}
 			if doPanic(opDesc, func() { ok, e = v.Unplan() }) {
 				return
 			}
+			forbid.sig = ""
 			collLine = fmt.Sprintf("vehicleUnplan %s %s", csvI(vus), b01(ok))
 			if len(vus) == 0 {
 				collLine = "nop"
@@ -1020,6 +1277,15 @@ func runHistCase(o *Out, ci int, hc *histCase, nops int, distinct map[string]boo
 			}
 			after := snapOf(b, sol)
 			o.Count(fmt.Sprintf("vehicle-unplan:ok=%v", ok))
+			if !ok && len(vus) > 0 {
+				o.Count("vehicle-unplan:rolled-back")
+				for _, id := range vus {
+					if bt.d.parent[id] >= 0 {
+						o.Count("vehicle-unplan:rolled-back-with-nested-member")
+						break
+					}
+				}
+			}
 			removedSince = true
 			if !ok && !snapSame(after, before) {
 				violate("C07", "rejected-unplan-changed-solution", "vehicle|"+changedParts(before, after), diffSnap(before, after))
@@ -1136,6 +1402,16 @@ func runHistCase(o *Out, ci int, hc *histCase, nops int, distinct map[string]boo
 		if !tainted && (!booksConsistent(sol) || !unplannedScoreFresh(bt, sol)) {
 			tainted = true
 			o.Count("tainted-by:" + opDesc)
+		}
+		if uc != nil {
+			if w := solutionDataStale(sol, fc, fo); w != "" && !tainted {
+				violate("C11", "solution-data-not-refreshed-or-shared", opDesc, "working solution: "+w)
+			}
+			if shadow != nil {
+				if w := solutionDataStale(shadow, fc, fo); w != "" {
+					violate("C11", "copy-shares-solution-data-with-original", opDesc, "other side of the last copy: "+w)
+				}
+			}
 		}
 		if shadow != nil {
 			if s := snapOf(b, shadow); !snapSame(s, shadowSnap) {
@@ -1684,6 +1960,8 @@ func waitEstCorrespondence(o *Out, rec *recorder, mv nextroute.SolutionMoveStops
 	pe := from.EndValue()
 	var items []string
 	prevEnd := pe
+	remaining := cnt
+	betweenUnchanged := false
 	for i := firstIns; i < len(hyp); i++ {
 		to := hyp[i]
 		travel, _, start, end := vt.TemporalValues(prevEnd, hyp[i-1].ModelStop(), to.ModelStop())
@@ -1706,6 +1984,17 @@ func waitEstCorrespondence(o *Out, rec *recorder, mv nextroute.SolutionMoveStops
 		if to.IsPlanned() {
 			cArr, cEnd = to.ArrivalValue(), to.EndValue()
 			cPrev = acc[to.Previous().Index()]
+			if remaining > 0 && !timeDep && prevEnd+travel == cArr && end == cEnd {
+				o.Count("wait-est:unchanged-planned-stop-between-inserted-stops")
+				if mw > 0 || stopC != nil {
+					betweenUnchanged = true
+				}
+			}
+		} else {
+			remaining--
+			if betweenUnchanged && stopC != nil && start-(prevEnd+travel) > mw {
+				o.Count("wait-est:late-inserted-stop-over-its-wait-limit-behind-unchanged-stop")
+			}
 		}
 		items = append(items, fmt.Sprintf("%s;%s;%s;%s;%s;%s;%s;%s", rat(travel), rat(end-start), b01(to.IsPlanned()), rat(mw),
 			rat(cArr), rat(cEnd), rat(cPrev), wins))
